@@ -319,6 +319,15 @@ def main(argv=None):
         json.dump(rec, open(path, "w"), indent=1, default=str)
         violations.append((path, tf["clause"], True))
 
+    # ---- engine self-test (thorough tier only): seeded property-breaking changes and neutral edits on scratch copies ----------
+    selftest = []
+    if tier == "thorough" and os.environ.get("VERIF_REPO", "/repo") == "/repo" and os.environ.get("VERIF_SELFTEST") != "0":
+        from jvc import selftest as st
+        selftest = st.run(prop, os.environ.get("VERIF_REPO", "/repo"))
+        for s_ in selftest:
+            if s_["status"] in ("MISSED", "false-alarm", "checker-error", "error"):
+                guard_msgs.append(f"engine self-test: {s_['id']} -> {s_['status']} (exit {s_.get('exit')})")
+
     undecided = bool(unknown or errors or guard_msgs or lean_bad or twin_err or cross_bad)
     # ---- evidence -----------------------------------------------------------------------------------------------------
     trusted = []
@@ -361,6 +370,7 @@ def main(argv=None):
             "rule": twin.get("rule", "") if isinstance(twin, dict) else "",
             "twin_samples": twin.get("samples", [])[:4] if isinstance(twin, dict) else [],
             "cross_checked_cvc5": sum(1 for v in vcs if v.get("cross") == "discharged"),
+            "engine_selftest": selftest,
             "explanation": getattr(mod, "__doc__", "") or "",
         },
         "assumptions": [f"not decided: {x}" for x in getattr(mod, "NOT_DECIDED", [])] + [f"assumed: {x}" for x in getattr(mod, "ASSUMPTIONS", [])],
@@ -378,6 +388,8 @@ def main(argv=None):
     if isinstance(twin, dict) and not twin.get("skipped"):
         print(f"[{prop}] native twin (bounded, not counted as proof): {twin.get('evaluations', 0)} evaluations, "
               f"{len(twin_fail)} failing clause(s){'; ERROR ' + str(twin_err)[:300] if twin_err else ''}")
+    for s_ in selftest:
+        print(f"[{prop}] self-test {s_['id']} ({s_['kind']}): {s_['status']}" + (f" (exit {s_['exit']}, {s_['seconds']} s)" if "exit" in s_ else f" ({s_.get('reason', '')[:120]})"))
     by_finding = {}
     for f, n in known:
         by_finding.setdefault(json.dumps(f, sort_keys=True), []).append(n)
